@@ -33,6 +33,22 @@ package single
 //@   ensures [error-keeps-queue] err != nil ==> len(bq.queue) == old(len(bq.queue))
 //@   ensures [wal-delete-own-record] del ==> del.count == 1 && del.arg2.string == old(WalKey(bq.queue[0].Transactions))
 
+// Reload after a restart: every record of the write-ahead log that can be read and decoded is put
+// back into the queue - the loop runs until the result channel is closed, and an iteration that got
+// a good record appends exactly one batch holding the decoded transactions. The log itself is not
+// written (frame). The order is the datastore's iteration order (see the C10 finding on keys).
+//@ func (bq *BatchQueue) Load(ctx) (err)
+//@   property C10
+//@   requires [wiring] bq.db != nil
+//@   observe q := call Query
+//@   observe um := call Unmarshal
+//@   modifies bq.queue
+//@   ensures [reads-to-the-end] err == nil ==> q.count == 1 && q.res1 == nil && !recvOpen("Next")
+//@   ensures [query-failed] err != nil ==> q.count == 1 && q.res1 != nil
+//@   loop 1 invariant [every-record-loaded] recvCount("Next") == 1 && result.Error == nil && um.count == 1 && um.res0 == nil ==> len(bq.queue) == iter(len(bq.queue)) + 1 && bq.queue[len(bq.queue)-1].Transactions == pbBatch.Txs
+//@   loop 1 invariant [nothing-dropped] len(bq.queue) >= iter(len(bq.queue)) && forall k :: 0 <= k && k < iter(len(bq.queue)) ==> bq.queue[k].Transactions == iter(bq.queue[k].Transactions)
+//@   loop 1 invariant [decodes-the-record] um.count <= 1 && (um.count == 1 ==> um.arg0 == result.Value)
+
 //@ func (c *Sequencer) SubmitBatchTxs(ctx, req) (resp, err)
 //@   property C10
 //@   requires [wiring] c.queue != nil && c.queue.db != nil && c.logger != nil
